@@ -7,90 +7,12 @@
 (*   FmtStr    format_string_internal (precision truncates by characters)     *)
 (* Two generators: "fields" = product of field choices, "raw" = every string  *)
 (* over a small alphabet (malformed specifications included).                 *)
-EXTENDS Integers, Sequences, FiniteSets, TLC, Json
+EXTENDS FormatCore, Json
 CONSTANTS Mode, Emit, MaxLen, RawAlphabet, Widths, Precs, Quick
 
 VARIABLES spec, kind, val, sval, out, done
 vars == <<spec, kind, val, sval, out, done>>
 
-Ch(s, i) == IF i >= 1 /\ i <= Len(s) THEN SubSeq(s, i, i) ELSE ""
-IsAlign(c) == c \in {"<", ">", "=", "^"}
-IsDigitCh(c) == c \in {"0", "1", "2", "3", "4", "5", "6", "7", "8", "9"}
-DigitVal(c) == CASE c = "0" -> 0 [] c = "1" -> 1 [] c = "2" -> 2 [] c = "3" -> 3 [] c = "4" -> 4 [] c = "5" -> 5
-                 [] c = "6" -> 6 [] c = "7" -> 7 [] c = "8" -> 8 [] c = "9" -> 9 [] OTHER -> 0
-RECURSIVE DigitsEnd(_, _)
-DigitsEnd(s, i) == IF IsDigitCh(Ch(s, i)) THEN DigitsEnd(s, i + 1) ELSE i
-RECURSIVE NumVal(_, _, _, _)
-NumVal(s, i, e, acc) == IF i >= e THEN acc ELSE NumVal(s, i + 1, e, acc * 10 + DigitVal(Ch(s, i)))
-
-Err(why) == [ok |-> FALSE, why |-> why]
-\* parse_internal_render_format_spec; dalign/dtype are the defaults of the value's type
-Parse(s, dalign, dtype) ==
-   LET n == Len(s)
-       fillGiven == n >= 2 /\ IsAlign(Ch(s, 2))
-       alignOnly == ~fillGiven /\ n >= 1 /\ IsAlign(Ch(s, 1))
-       fill0 == IF fillGiven THEN Ch(s, 1) ELSE " "
-       align0 == IF fillGiven THEN Ch(s, 2) ELSE IF alignOnly THEN Ch(s, 1) ELSE dalign
-       alignSpecified == fillGiven \/ alignOnly
-       p1 == IF fillGiven THEN 3 ELSE IF alignOnly THEN 2 ELSE 1
-       hasSign == Ch(s, p1) \in {"+", "-", " "}
-       sign == IF hasSign THEN Ch(s, p1) ELSE ""
-       p2 == IF hasSign THEN p1 + 1 ELSE p1
-       alt == Ch(s, p2) = "#"
-       p3 == IF alt THEN p2 + 1 ELSE p2
-       zero == ~fillGiven /\ Ch(s, p3) = "0"
-       fill == IF zero THEN "0" ELSE fill0
-       align == IF zero /\ ~alignSpecified /\ dalign = ">" THEN "=" ELSE align0
-       p4 == IF zero THEN p3 + 1 ELSE p3
-       p5 == DigitsEnd(s, p4)
-       width == IF p5 = p4 THEN -1 ELSE NumVal(s, p4, p5, 0)
-       comma == Ch(s, p5) = ","
-       p6 == IF comma THEN p5 + 1 ELSE p5
-       under == Ch(s, p6) = "_"
-       p7 == IF under THEN p6 + 1 ELSE p6
-       comma2 == Ch(s, p7) = ","
-       hasDot == Ch(s, p7) = "."
-       p8 == IF hasDot THEN DigitsEnd(s, p7 + 1) ELSE p7
-       prec == IF hasDot /\ p8 > p7 + 1 THEN NumVal(s, p7 + 1, p8, 0) ELSE -1
-       rest == n - p8 + 1
-       ty == IF rest = 1 THEN Ch(s, p8) ELSE dtype
-       group == IF comma THEN "," ELSE IF under THEN "_" ELSE ""
-   IN IF (comma /\ under) \/ (under /\ comma2) THEN Err("Cannot specify both ',' and '_'.")
-      ELSE IF hasDot /\ p8 = p7 + 1 THEN Err("Format specifier missing precision")
-      ELSE IF rest > 1 THEN Err("Invalid format specifier")
-      ELSE IF group # "" /\ ~(ty \in {"d", "e", "f", "g", "E", "G", "%", "F", ""} \/ (group = "_" /\ ty \in {"b", "o", "x", "X"}))
-           THEN Err("Cannot specify '" \o group \o "' with '" \o ty \o "'.")
-      ELSE [ok |-> TRUE, fill |-> fill, align |-> align, sign |-> sign, alt |-> alt, width |-> width,
-            group |-> group, prec |-> prec, ty |-> ty]
-
-Rep(c, n) == LET RECURSIVE R(_) R(k) == IF k <= 0 THEN "" ELSE c \o R(k - 1) IN R(n)
-DigitCh(d) == SubSeq("0123456789abcdef", d + 1, d + 1)
-RECURSIVE ToBase(_, _)
-ToBase(n, b) == IF n < b THEN DigitCh(n) ELSE ToBase(n \div b, b) \o DigitCh(n % b)
-UpCh(c) == CASE c = "a" -> "A" [] c = "b" -> "B" [] c = "c" -> "C" [] c = "d" -> "D" [] c = "e" -> "E" [] c = "f" -> "F" [] OTHER -> c
-Upper(s) == LET RECURSIVE U(_) U(k) == IF k > Len(s) THEN "" ELSE UpCh(SubSeq(s, k, k)) \o U(k + 1) IN U(1)
-RECURSIVE Group(_, _, _)
-Group(s, g, sep) == IF Len(s) <= g THEN s ELSE Group(SubSeq(s, 1, Len(s) - g), g, sep) \o sep \o SubSeq(s, Len(s) - g + 1, Len(s))
-
-\* fill_number / calc_number_widths: lead = sign and prefix, digits = the digit string, tail = text copied after the
-\* digits (nothing for integers; '.', fraction, exponent, '%' for floats).  Grouping applies to digits only and, with
-\* fill '0' and align '=', the zero padding is grouped too.
-Render(f, lead, digits, tail, gsz) ==
-   LET width == IF f.width < 0 THEN 0 ELSE f.width
-       zeroGroup == f.group # "" /\ f.fill = "0" /\ f.align = "="
-       minw == width - Len(lead) - Len(tail)
-       RECURSIVE PadGrouped(_)
-       PadGrouped(m) == LET gm == Group(m, gsz, f.group) IN
-                        IF Len(gm) >= minw THEN (IF SubSeq(gm, 1, 1) = f.group THEN "0" \o gm ELSE gm) ELSE PadGrouped("0" \o m)
-       body == (IF f.group = "" \/ digits = "" THEN digits ELSE IF zeroGroup THEN PadGrouped(digits) ELSE Group(digits, gsz, f.group)) \o tail
-       n == Len(lead) + Len(body)
-       npad == IF width > n THEN width - n ELSE 0
-   IN CASE f.align = "<" -> lead \o body \o Rep(f.fill, npad)
-        [] f.align = ">" -> Rep(f.fill, npad) \o lead \o body
-        [] f.align = "=" -> lead \o Rep(f.fill, npad) \o body
-        [] OTHER -> Rep(f.fill, npad \div 2) \o lead \o body \o Rep(f.fill, npad - npad \div 2)
-
-SignOf(f, neg) == IF neg THEN "-" ELSE IF f.sign = "+" THEN "+" ELSE IF f.sign = " " THEN " " ELSE ""
 \* integers (value v, |v| < 2^31); "ERR:<why>" for the specifications Python rejects
 FmtInt(s, v) ==
    LET f == Parse(s, ">", "d") IN
